@@ -249,6 +249,14 @@ func (in *Interp) reportFailure(id, kind, msg, where string, extra []*smt.Term) 
 			known = append(known, k)
 		}
 	}
+	// cheap pre-check on the slice of the path condition that shares variables with the negated assertion:
+	// unsat there implies unsat of the full query (a sat answer is re-examined with the full path condition)
+	if len(extra) > 0 {
+		r0, _, _ := in.Solver.Check(in.slice(extra), nil)
+		if r0 == smt.Unsat {
+			return false
+		}
+	}
 	want := in.wantTerms()
 	// first: residual query excluding known predicates
 	resid := append([]*smt.Term{}, q...)
